@@ -17,6 +17,7 @@ import re
 import tempfile
 
 from .. import core
+from . import _doc
 
 ID = "C01"
 LEVEL = "model_checking"
@@ -30,7 +31,8 @@ RULE = ("Engine B walk of two input tries.  shapes: a state is a sequence of lin
         "into the template, a trace is that document in one termination mode (counted apart from shapes / chars, with "
         "which a few sweep documents coincide).  routes: a state is one document of the short shape / character spaces, a trace "
         "is that document taken through every other documented kind of input, flag combination and way of writing it out (one "
-        "evaluation per document).  Outcome classes = sequence of top-level parts of the parsed file (P paragraph, "
+        "evaluation per document).  ladder: a state is one generated document (a count or a length varied in an otherwise "
+        "plain document), a trace is that document through tokenizer and parser (and, where stated, the routes).  Outcome classes = sequence of top-level parts of the parsed file (P paragraph, "
         "W whitespace, C comment, E error) or the exception class; extra = adjacent token-kind pairs seen.")
 BUDGET = {"quick": 240, "thorough": 3000}
 
@@ -70,7 +72,26 @@ def _depths(tier):
 
 def bounds(tier):
     n, nc, m = _depths(tier)
-    return dict(_bounds(tier), routes=_routes_bounds(tier), recovery="every shape sequence of length <= 2 (terminated / open last line) parsed right after each of %d aborted parses (mixed termination, undecodable bytes, failing iterator, strict-mode rejections)" % len(aborts()))
+    return dict(_bounds(tier), routes=_routes_bounds(tier), ladders=_ladder_bounds(tier), recovery="every shape sequence of length <= 2 (terminated / open last line) parsed right after each of %d aborted parses (mixed termination, undecodable bytes, failing iterator, strict-mode rejections)" % len(aborts()))
+
+
+def _ladder_bounds(tier):
+    ds = ladder_descs(tier)
+    return {"count_ladder_lines": "runs of n lines of one kind (%s) after / between / before ordinary lines (position first, "
+                                  "middle, last; n > 40 in the quick tier: one position in rotation), every termination mode, "
+                                  "n in 1..40, %s: %d documents (signatures ladder/<kind>/...)"
+                                  % (", ".join(LINE_RUNS), sorted({d["n"] for d in ds["lines"] if d["n"] > 40}), len(ds["lines"])),
+            "count_ladder_chars": "one line with a run of n characters (%s), n in 1..40, %s: %d documents "
+                                  "(signatures ladder-chars/<kind>/...)"
+                                  % (", ".join(CHAR_RUNS), sorted({d["n"] for d in ds["chars"] if d["n"] > 40}), len(ds["chars"])),
+            "size_ladder": "one line of L characters (+ its prefix) as %s, L in %s, content %s placed just before / at / across "
+                           "every multiple of 4096 (256 below 4097), in the middle and at the end of a document, termination mode "
+                           "in rotation: %d documents (signatures size/<kind>/<content>/...)"
+                           % (", ".join(SIZE_KINDS), sorted({d["n"] for d in ds["size"]}), ", ".join(SIZE_CONTENTS), len(ds["size"])),
+            "ladder_routes": "every size document, and the count documents with n in %s (middle position; above 129 in the quick "
+                             "tier the kinds blank, field, cont, paragraph), are also taken through every other kind of "
+                             "input (byte lines, file objects, real files ...), flag combination and way of writing out"
+                             % (ROUTE_NS,)}
 
 
 def _route_depths(tier):
@@ -126,6 +147,10 @@ def assumptions():
         "routes: reading fields between parse and dump may raise on odd documents (not judged here); only the dump "
         "afterwards is",
         "routes: copy.copy / copy.deepcopy / pickle of a parsed file are not documented and not driven",
+        "ladders: documents beyond the small scope vary ONE thing (a count or a length) in an otherwise plain document; the "
+        "counts stop at 1001 lines in the quick tier (5000 thorough; 5000 characters in a run), lengths at 65537 characters "
+        "(262145 and 2 x / 3 x 65536 thorough); the file-object routes cut lines themselves, so a lone CR inside a long line is "
+        "not given to a text-mode file object (as in the routes pass)",
     ]
 
 
@@ -657,11 +682,14 @@ def units(tier, seed):
         out.append(("routes", "core", rnc, pre))
     for L in range(0, rm + 1):
         out.append(("routes", "chars", L, None))
+    out += scale_units(tier)
     return out
 
 
 def unit_cost(u, tier):
     space, which, L, pre = u
+    if space == "ladder":
+        return 2000 + 40 * sum(d["n"] for d in pre) // (40 if which == "size" else 1)
     if space == "routes":
         return 40 * (6 ** L if which == "chars" else 3 * (len(shapes(0)) if which == "full" else len(CORE_IDX)) ** (L - (pre is not None and L > 1)))
     if space == "sweep":
@@ -677,6 +705,8 @@ def unit_cost(u, tier):
 def run_unit(u, tier, seed):
     part = core.Part()
     space, which, L, pre = u
+    if space == "ladder":
+        return unit_ladder(part, which, pre)
     if space == "sweep":
         return unit_sweep(part, L, pre)
     if space == "recover":
@@ -725,6 +755,8 @@ def run_unit(u, tier, seed):
 
 
 def replay(case):
+    if case.get("space") == "ladder":
+        return execute_ladder(case["desc"])
     lines = list(case["lines"])
     if not in_domain(lines):
         return []
@@ -742,6 +774,9 @@ def replay(case):
 
 
 def repro_py(case):
+    if case.get("space") == "ladder":
+        return ("# generated document: mc/props/c01.py ladder_lines(%r)\nimport sys\nsys.path.insert(0, '/verif')\n"
+                "from mc.props import c01\nprint(c01.execute_ladder(%r))\n" % (case["desc"], case["desc"]))
     lines = list(case["lines"])
     note = ""
     if case.get("space") == "routes":
@@ -754,3 +789,189 @@ def repro_py(case):
             "f = parse_deb822_file(list(lines), accept_files_with_error_tokens=True, "
             "accept_files_with_duplicated_fields=True)\n"
             "assert f.dump() == expected\n" % (lines, expected_text(lines)))
+
+
+# ------------------------------------------------------------------------------------------------ beyond the small scope
+
+LINE_RUNS = ("blank", "ws", "ws-mixed", "comment", "field", "dup-field", "cont", "junk", "paragraph", "blank-ws",
+             "field-comment", "cont-comment", "mixed")
+CHAR_RUNS = ("space-after-colon", "space-after-colon-empty", "trailing-space", "trailing-tab", "cont-leading",
+             "cont-trailing", "ws-only", "tabs-only", "colons", "hashes", "name", "inner-spaces", "comment-spaces")
+SIZE_KINDS = ("value", "value-padded", "comment", "cont", "bare", "ws", "name")
+SIZE_CONTENTS = ("plain", "blank", "colon", "multibyte", "hash", "tab", "cr", "straddle")
+
+
+# counts at which a document is also taken through the other kinds of input / flags / ways of writing it out
+ROUTE_NS = (5, 9, 17, 25, 33, 65, 129, 257, 1001, 2501)
+
+
+def _line_run(kind, n):
+    """-> (lines that must precede the run, the run: n elements of the kind)"""
+    r = range(1, n + 1)
+    if kind == "blank":
+        return [], [""] * n
+    if kind == "ws":
+        return [], [" "] * n
+    if kind == "ws-mixed":
+        return [], [(" ", "\t", "  \t")[i % 3] for i in r]
+    if kind == "comment":
+        return [], ["#c %d" % i for i in r]
+    if kind == "field":
+        return [], ["K%d: v%d" % (i, i) for i in r]
+    if kind == "dup-field":
+        return [], ["A: v%d" % i for i in r]
+    if kind == "cont":
+        return ["L: first"], [" line %d" % i for i in r]
+    if kind == "junk":
+        return [], ["junk %d" % i for i in r]
+    if kind == "paragraph":
+        out = []
+        for i in r:
+            out += ["P: %d" % i, ""]
+        return [], out[:-1]
+    if kind == "blank-ws":
+        return [], ["" if i % 2 else " " for i in r]
+    if kind == "field-comment":
+        return [], ["#c %d" % i if i % 2 else "K%d: v" % i for i in r]
+    if kind == "cont-comment":
+        return ["L: first"], [" line %d" % i if i % 2 else "#in %d" % i for i in r]
+    if kind == "mixed":
+        cyc = ["", "#c", "K%d: v", " cont", " ", "junk", "K%d:", "\tcont \t"]
+        return [], [cyc[i % len(cyc)] % i if "%d" in cyc[i % len(cyc)] else cyc[i % len(cyc)] for i in r]
+    raise AssertionError(kind)
+
+
+def _char_run(kind, n):
+    """-> (lines that must precede it, one line with n repetitions of a character)"""
+    sp = " " * n
+    return {"space-after-colon": ([], "A:" + sp + "b"), "space-after-colon-empty": ([], "A:" + sp),
+            "trailing-space": ([], "A: b" + sp), "trailing-tab": ([], "A: b" + "\t" * n),
+            "cont-leading": (["L: first"], sp + "c"), "cont-trailing": (["L: first"], " c" + sp),
+            "ws-only": ([], sp), "tabs-only": ([], "\t" * n), "colons": ([], "A" + ":" * n + " b"),
+            "hashes": ([], "#" * n + "c"), "name": ([], "N" * n + ": b"), "inner-spaces": ([], "A: b" + sp + "c"),
+            "comment-spaces": ([], "#" + sp)}[kind]
+
+
+def ladder_lines(desc):
+    """compact description -> the lines of the document.  {"fam": "lines" | "chars" | "size", "kind": ..., "n": count or
+    length, "pos": "first" | "mid" | "last", "mode": one of MODES, "content": (size) what sits at the block boundaries}"""
+    fam, kind, n, pos = desc["fam"], desc["kind"], desc["n"], desc.get("pos", "mid")
+    if fam == "lines":
+        head, run = _line_run(kind, n)
+    elif fam == "chars":
+        head, line = _char_run(kind, n)
+        run = [line]
+    else:
+        content = desc.get("content", "plain")
+        head = []
+        if kind == "ws":
+            run = [(" " if content != "tab" else "\t") * n]
+        else:
+            pre = {"value": "A: ", "value-padded": "A:\t ", "comment": "#", "cont": " ", "bare": "", "name": ""}[kind]
+            if kind == "cont":
+                head = ["L: first"]
+            # (straddle: the two-byte characters sit across the 4096-byte block boundaries of the file when the line comes first)
+            t = _doc.sized_text(n, content, lead=len(pre) + (len("L: first\n") if kind == "cont" else 0))
+            run = [pre + t + {"value-padded": " \t", "name": ": v"}.get(kind, "")]
+    if pos == "first":
+        seq = head + run + ["B: c", " d"]
+    elif pos == "mid":
+        seq = ["A: b"] + head + run + ["B: c"]
+    else:
+        seq = ["A: b"] + head + run
+    return lines_for(seq, desc["mode"])
+
+
+def execute_ladder(desc, part=None):
+    lines = ladder_lines(desc)
+    if not in_domain(lines):
+        return []
+    bad = execute(lines, part)
+    if desc.get("routes") and not bad:
+        scratch = tempfile.mkdtemp(prefix="c01-ladder-")
+        try:
+            bad = execute_routes(lines, scratch, True)
+        finally:
+            import shutil
+            shutil.rmtree(scratch, ignore_errors=True)
+    return [("%s/%s/%s" % ({"lines": "ladder", "chars": "ladder-chars", "size": "size"}[desc["fam"]], desc["kind"] +
+                           ("/" + desc["content"] if desc["fam"] == "size" else ""), sig), exp, obs) for sig, exp, obs in bad]
+
+
+def _short(x):
+    return x if not isinstance(x, str) or len(x) < 400 else x[:180] + " ...(%d characters)... " % len(x) + x[-180:]
+
+
+def ladder_descs(tier):
+    """-> {"lines": [...], "chars": [...], "size": [...]} in canonical (smallest first) order"""
+    NS = _doc.LADDER_NS
+    out = {"lines": [], "chars": [], "size": []}
+    line_ns = NS["small"] + NS["mid"] + ([1000, 1001] if tier == "quick" else NS["big"] + NS["huge"])
+    for n in line_ns:
+        for kind in LINE_RUNS:
+            for pi, pos in enumerate(("mid", "last", "first")):
+                if n > 40 and pos != ("mid", "last", "first")[n % 3] and tier == "quick":
+                    continue
+                for mode in MODES:
+                    out["lines"].append({"fam": "lines", "kind": kind, "n": n, "pos": pos, "mode": mode,
+                                         "routes": n in ROUTE_NS and (pos == "mid" or n > 40) and
+                                         (n <= 129 or tier != "quick" or kind in ("blank", "field", "cont", "paragraph"))})
+    for n in NS["small"] + NS["mid"] + NS["big"] + NS["huge"]:
+        for kind in CHAR_RUNS:
+            for pos in ("mid", "last", "first"):
+                if n > 40 and pos == "first":
+                    continue
+                for mode in MODES:
+                    out["chars"].append({"fam": "chars", "kind": kind, "n": n, "pos": pos, "mode": mode,
+                                         "routes": n in ROUTE_NS and pos == "mid"})
+    for L in _doc.SIZE_LS + [2 * 65536, 3 * 65536]:
+        if tier == "quick" and L > 65537:
+            continue
+        for kind in SIZE_KINDS:
+            for ci, content in enumerate(SIZE_CONTENTS):
+                if kind == "ws" and content not in ("plain", "tab"):
+                    continue
+                if kind == "name" and content not in ("plain", "multibyte", "hash"):
+                    continue
+                if content == "straddle" and (kind == "name" or L < 4095):
+                    continue
+                for pi, pos in enumerate(("mid", "last", "first")):
+                    if pos == "first" and content not in ("plain", "straddle", "cr"):
+                        continue
+                    mode = MODES[(ci + pi + L) % 3]
+                    out["size"].append({"fam": "size", "kind": kind, "n": L, "content": content, "pos": pos, "mode": mode,
+                                        "routes": True})
+    for k in out:
+        out[k] = [d for d in out[k] if in_domain(ladder_lines(dict(d, n=min(d["n"], 8)))) or d["fam"] == "size"]
+    return out
+
+
+def scale_units(tier):
+    ds = ladder_descs(tier)
+    out = []
+    for fam, chunks in (("lines", 24), ("chars", 8), ("size", 16)):
+        for k in range(chunks):
+            out.append(("ladder", fam, k, tuple(ds[fam][k::chunks])))
+    return out
+
+
+def unit_ladder(part, fam, descs):
+    for desc in descs:
+        lines = ladder_lines(desc)
+        if not in_domain(lines):
+            continue
+        part.states += 1
+        part.transitions += 1
+        part.traces += 1
+        if _nontrivial(lines):
+            part.nontrivial += 1
+        bad = execute_ladder(desc, part)
+        if desc.get("routes"):
+            part.evaluations += 1
+        part.outcomes["ladder/%s/%s/%s" % (fam, desc["kind"], "violation" if bad else desc["mode"])] += 1
+        for sig, exp, obs in bad:
+            part.violation(sig, {"space": "ladder", "desc": desc}, _short(exp), _short(obs), rank=desc["n"])
+    part.max_depth = max([part.max_depth] + [d["n"] for d in descs])
+    if descs:
+        part.sample({"space": "ladder", "desc": descs[0]})
+    return part
